@@ -192,6 +192,29 @@ def run_check(mod, prop, root, overrides):
     return r, None
 
 
+def _job(arg):
+    modname, prop, root, ov = arg
+    import importlib
+    mod = importlib.import_module(modname)
+    r, err = run_check(mod, prop, root, ov)
+    if r is None:
+        return None, err
+    return [(f.ident(), f.sig) for f in r.findings], None
+
+
+def _run_jobs(modname, prop, root, ovs):
+    """the replays, in worker processes (PMV_JOBS, default 8; 1 = in this process)"""
+    import os
+    n = int(os.environ.get('PMV_JOBS', '8') or 8)
+    args = [(modname, prop, root, ov) for ov in ovs]
+    if n <= 1 or len(args) <= 1:
+        return [_job(a) for a in args]
+    from concurrent.futures import ProcessPoolExecutor
+    import multiprocessing as mp
+    with ProcessPoolExecutor(max_workers=min(n, len(args)), mp_context=mp.get_context('fork')) as ex:
+        return list(ex.map(_job, args))
+
+
 def selftest(run, repo, mod):
     prop = run.prop
     muts = getattr(mod, 'MUTANTS', [])
@@ -203,6 +226,9 @@ def selftest(run, repo, mod):
     base = {(f.ident(), f.sig) for f in run.findings}
     res = {'mutants': 0, 'caught': 0, 'skipped': [], 'equiv': 0, 'silent': 0, 'missed': [], 'noisy': [],
            'seeded': 0, 'seeded_caught': 0}
+    # every replay is an independent in-memory run of the quick tier on a changed copy of the sources: they are
+    # collected first and run in parallel worker processes (the verdicts do not depend on the order)
+    jobs = []       # (kind, name, spec, overrides)
     # changes written by independent reviewers who saw only the property text (kept under /verif/seeded): each must
     # be reported as a violation, not as an analysis error
     for name, patch in seeds:
@@ -210,65 +236,60 @@ def selftest(run, repo, mod):
         if ov is None:
             res['skipped'].append(name + ' (patch no longer applies)')
             continue
-        res['seeded'] += 1
-        r, err = run_check(mod, prop, repo.root, ov)
-        if r is None:
-            res['missed'].append('%s (analysis error instead of finding: %s)' % (name, err[:120]))
-            continue
-        if [f for f in r.findings if (f.ident(), f.sig) not in base]:
-            res['seeded_caught'] += 1
-        else:
-            res['missed'].append('%s (no new finding)' % name)
+        jobs.append(('seeded', name, None, ov))
     for mt in muts:
         ov = apply_edits(repo, mt['edits'])
         if ov is None:
             res['skipped'].append(mt['name'])
             continue
-        res['mutants'] += 1
-        r, err = run_check(mod, prop, repo.root, ov)
-        if r is None:
-            if mt.get('expect') == 'error':
-                res['caught'] += 1
-            else:
-                res['missed'].append('%s (analysis error instead of finding: %s)' % (mt['name'], err[:120]))
-            continue
-        new = [f for f in r.findings if (f.ident(), f.sig) not in base]
-        exp = mt.get('expect')
-        hit = [f for f in new if exp is None or exp == 'error' or
-               (f.rule.startswith(exp[0]) and exp[1] in f.construct)]
-        if hit:
-            res['caught'] += 1
-        else:
-            res['missed'].append('%s (new findings: %s)' % (mt['name'], [f.ident()[1:3] for f in new][:3]))
+        jobs.append(('mutant', mt['name'], mt, ov))
     # behaviour-preserving refactorings written by independent reviewers: no new finding, no analysis error
     for name, patch in seeded(prop, 'equivalent'):
         ov = patch_overrides(repo, patch)
         if ov is None:
             res['skipped'].append(name + ' (patch no longer applies)')
             continue
-        res['equiv'] += 1
-        r, err = run_check(mod, prop, repo.root, ov)
-        if r is None:
-            res['noisy'].append('%s (analysis error: %s)' % (name, err[:160]))
-        elif [f for f in r.findings if (f.ident(), f.sig) not in base]:
-            res['noisy'].append('%s (%s)' % (name, [f.ident()[1:] for f in r.findings if (f.ident(), f.sig) not in base][:2]))
-        else:
-            res['silent'] += 1
+        jobs.append(('equiv', name, None, ov))
     for eq in eqs:
         ov = apply_edits(repo, eq['edits'])
         if ov is None:
             res['skipped'].append(eq['name'])
             continue
-        res['equiv'] += 1
-        r, err = run_check(mod, prop, repo.root, ov)
-        if r is None:
-            res['noisy'].append('%s (analysis error: %s)' % (eq['name'], err[:160]))
-            continue
-        new = [f for f in r.findings if (f.ident(), f.sig) not in base]
-        if new:
-            res['noisy'].append('%s (%s)' % (eq['name'], [f.ident()[1:] for f in new][:2]))
+        jobs.append(('equiv', eq['name'], None, ov))
+    outcomes = _run_jobs(mod.__name__, prop, repo.root, [j[3] for j in jobs])
+    for (kind, name, spec, _ov), (idents, err) in zip(jobs, outcomes):
+        new = None if idents is None else [x for x in idents if (x[0], x[1]) not in base]
+        if kind == 'seeded':
+            res['seeded'] += 1
+            if new is None:
+                res['missed'].append('%s (analysis error instead of finding: %s)' % (name, err[:120]))
+            elif new:
+                res['seeded_caught'] += 1
+            else:
+                res['missed'].append('%s (no new finding)' % name)
+        elif kind == 'mutant':
+            res['mutants'] += 1
+            exp = spec.get('expect')
+            if new is None:
+                if exp == 'error':
+                    res['caught'] += 1
+                else:
+                    res['missed'].append('%s (analysis error instead of finding: %s)' % (name, err[:120]))
+                continue
+            hit = [x for x in new if exp is None or exp == 'error' or
+                   (x[0][1].startswith(exp[0]) and exp[1] in x[0][2])]
+            if hit:
+                res['caught'] += 1
+            else:
+                res['missed'].append('%s (new findings: %s)' % (name, [x[0][1:3] for x in new][:3]))
         else:
-            res['silent'] += 1
+            res['equiv'] += 1
+            if new is None:
+                res['noisy'].append('%s (analysis error: %s)' % (name, err[:160]))
+            elif new:
+                res['noisy'].append('%s (%s)' % (name, [x[0][1:] for x in new][:2]))
+            else:
+                res['silent'] += 1
     res['wall_s'] = round(time.time() - t0, 2)
     run.extra['selftest'] = res
     if res['missed'] or res['noisy']:
